@@ -2,6 +2,8 @@
 package selftest
 
 import (
+	"slices"
+
 	"fmt"
 
 	"github.com/obolnetwork/charon/zzverif/vrt"
@@ -215,5 +217,25 @@ func T8() {
 	n, err := drainLoop(ch)
 	vrt.Assert("noerr", err == nil)
 	vrt.Assert("sum", n == a || n == a+5)
+	vrt.Reach("end")
+}
+
+// T9: sorting stubs keep the multiset and order the keys; stability for equal keys.
+func T9() {
+	type kv struct{ k, v int }
+	xs := make([]kv, 4)
+	for i := range xs {
+		xs[i] = kv{int(vrt.Byte(vrt.N("k", i))), i}
+	}
+	n := int(vrt.Byte("n"))
+	vrt.Assume(n <= 4)
+	s := xs[:n]
+	slices.SortStableFunc(s, func(a, b kv) int { return a.k - b.k })
+	for i := 0; i+1 < len(s); i++ {
+		vrt.Assert("sorted", s[i].k <= s[i+1].k)
+		if s[i].k == s[i+1].k {
+			vrt.Assert("stable", s[i].v < s[i+1].v)
+		}
+	}
 	vrt.Reach("end")
 }
